@@ -49,6 +49,7 @@ def gen(rng, small=None):
         c['input_size'] = rng.choice(['same', 'best'])
         c['const_sizing'] = rng.choice(SIZINGS)
         c['route'] = 'operator'; c['target'] = 'none'; c.pop('t', None)
+        c['const_carrier'] = rng.choice(['py', 'py', 'np'])      # the constant as a Python number or as a NumPy scalar (np.int64 / np.float64)
     return c
 
 def run_impl(c, fx, np):
@@ -63,6 +64,7 @@ def run_impl(c, fx, np):
         fxp = x if c['const'] == 'y' else y          # the Fxp operand that drives the conversion
         fxp.config.op_input_size = c['input_size']; fxp.config.const_op_sizing = c['const_sizing']; fxp.config.op_method = c['method']
         k = c['const_val']
+        if c.get('const_carrier') == 'np': k = np.int64(k) if isinstance(k, int) else np.float64(k)
         kf = fxp._convert_op_input_value(k)           # the fixed-point constant the operator will use (same call the operator makes)
         info['const_fmt'] = A.fmt_of(kf); info['const_code'] = lib.codes_of(kf)[0]
         info['const_cfg'] = (kf.config.rounding, kf.config.overflow)
